@@ -273,9 +273,12 @@ def strip_markers(s):
     return s.replace(M_REC_START, "").replace(M_ENT_START, "").replace(M_ENT_END, "").replace(M_REC_END, "")
 
 
-def compare_run(model_line, impl_line, cls=True, line=False, file=False, msg=False, extra=()):
-    """compare one RUN answer; returns None or a description of the difference"""
+def compare_run(model_line, impl_line, cls=True, line=False, file=False, msg=False, extra=(), canon=None):
+    """compare one RUN answer; returns None or a description of the difference.
+    `canon` canonicalises both outputs first (used where an order is unspecified)"""
     m, i = RunAns(model_line), RunAns(impl_line)
+    if canon and m.out is not None and i.out is not None:
+        m.out, i.out = canon(m.out), canon(i.out)
     if m.kind in ("malformed", "fuel", "panic") and m.kind != i.kind:
         return f"model status {m.status} vs impl status {i.status}"
     if i.kind in ("abort", "malformed"):
